@@ -120,7 +120,8 @@ class FailingPublish(InMemorySemantivaTransport):
 def check(nodes, fail_at, kind, detail, as_dir):
     global evaluations
     evaluations += 1
-    out = tmp / f"t{evaluations}" if as_dir else tmp / f"t{evaluations}.jsonl"
+    # directory output: an existing directory, every second one with a dot in its name (traces.v1); file output: a .jsonl path
+    out = tmp / (f"t{evaluations}.v1" if evaluations % 2 else f"t{evaluations}") if as_dir else tmp / f"t{evaluations}.jsonl"
     if as_dir:
         out.mkdir()
     driver = JsonlTraceDriver(str(out), detail=detail)
@@ -219,7 +220,7 @@ for n in (1, 2, 3, 4):
             m = list(nodes[:fail_at]) + [dict(bad)] + list(nodes[fail_at:n - 1]) if fail_at < n else list(nodes) + [dict(bad)]
             for d in (details if thorough else [details[(fail_at + n) % 4]]):
                 check(m, fail_at, kind, d, (fail_at + n) % 3 == 0)
-print(json.dumps({"bound": "pipelines of 1..4 nodes x failing node at every index >= 1 x 11 failure kinds x detail levels {hash,repr,context,all} x file/directory output; publication of a node's output failing at every index of pipelines of 1, 2, 4 nodes; 3 pipelines whose resolved parameters are non-finite floats (default, configuration, before a processor exception) x 4 detail levels",
+print(json.dumps({"bound": "pipelines of 1..4 nodes x failing node at every index >= 1 x 11 failure kinds x detail levels {hash,repr,context,all} x file/directory output (existing directories with and without a dot in their name); publication of a node's output failing at every index of pipelines of 1, 2, 4 nodes; 3 pipelines whose resolved parameters are non-finite floats (default, configuration, before a processor exception) x 4 detail levels",
                   "evaluations": evaluations, "distinct_nontrivial": len(distinct),
                   "rule": "distinct = (failure kind, failing index, length); every emitted line validated with jsonschema against the registry schema of its record_type",
                   "failures": failures[:40], "samples": samples}, default=str))
